@@ -4,15 +4,23 @@ import itertools, types
 from common import import_qib, run_correspondence
 
 PROP = "C17"
-LEAN_FILES = ["QibProofs/Properties/C17.lean"]
+LEAN_FILES = ["QibProofs/Properties/C17.lean", "QibProofs/Properties/C17Sched.lean"]
 GEN = ("tables",)
 DRIVER = "drv_backend"
 LEVEL_TEXT = ("Lean 4 theorems over a hand-written model of the status state machine and of the retry loop, whose "
               "tables (status enum, terminal set, reply->status map, NW_MAX_RETRIES) are regenerated from the source; "
-              "control flow tied to the code by exhaustive scripted-transport histories.")
-ASSUMPTIONS = ["wall-clock spacing of polls, real sockets/TLS and concurrent awaiters are outside the model",
+              "control flow tied to the code by exhaustive scripted-transport histories. SCHEDULES (C17Sched.lean, model BackendSched.lean): "
+              "several wait_for_results() coroutines on one experiment, each atomic between two suspensions in asyncio.sleep, resumed in "
+              "ANY order and interleaved with query_status()/results(): for every schedule terminal statuses are absorbing (no request, "
+              "no change), every coroutine that returns does so in a terminal world which is therefore the final one, with the server's "
+              "results iff that status is DONE; a coroutine awaited alone refines the sequential model (C17_sched_alone_refines_getResults); "
+              "tied by driving real coroutines step by step through a suspending asyncio fake, all short interleavings exhaustively.")
+ASSUMPTIONS = ["wall-clock spacing of polls and real sockets/TLS are outside the model; concurrency is cooperative (one event loop, "
+               "suspension only in asyncio.sleep): pre-emptive threads calling into one experiment are outside the model",
                "requests/time/asyncio are replaced by scripted fakes inside qib.backend.wmi.wmi_experiment and qib.util.networking"]
-RULE = ("exhaustive reply/fault scripts x client-call orders up to the tier's length bounds, plus seeded random longer ones; "
+RULE = ("exhaustive reply/fault scripts x client-call orders up to the tier's length bounds, plus seeded random longer ones; all schedules "
+        "of up to 5 (6) actions over spawn / resume i / query / results with up to 2 (3) coroutines on six reply scripts, plus random longer "
+        "schedules with transport faults; "
         "a case is non-trivial if at least one request reached the scripted transport; distinct = distinct (script, calls)")
 
 DOC = {"pending": "QUEUED", "active": "RUNNING", "finished": "DONE", "cancelled": "CANCELLED", "offline": "ERROR"}
@@ -189,7 +197,94 @@ def impl_exp(case):
     return out
 
 
+class _Suspend:
+    """awaitable that hands control back to whoever drives the coroutine (the schedule of the case), like `asyncio.sleep` on a real loop"""
+    def __await__(self):
+        yield "sleep"
+
+
+class SchedAsyncio:
+    @staticmethod
+    def sleep(d):
+        return _Suspend()
+
+
+def impl_sched(case):
+    """several `wait_for_results()` coroutines on ONE submitted experiment, resumed in the order the case prescribes and interleaved with
+    plain `query_status()` / `results()` calls; after every action: what the action produced, the status, the number of requests so far"""
+    qib, nw, wexp = _ctx["qib"], _ctx["networking"], _ctx["wexp"]
+    tr = Transport([tuple(o) if isinstance(o, list) else o for o in case["outcomes"]])
+    old = (nw.requests, wexp.time, wexp.asyncio)
+    nw.requests, wexp.time, wexp.asyncio = tr, FakeTime(), SchedAsyncio
+    import io, contextlib
+    out = {"steps": []}
+    coros = []
+
+    def advance(co):
+        try:
+            y = co.send(None)
+            return "sleeping" if y == "sleep" else ["raised", "Other"]
+        except StopIteration as s_:
+            r = s_.value
+            return ["res", None if r is None else r.runtime]
+        except BaseException as e:
+            if isinstance(e, KeyboardInterrupt):
+                raise
+            return ["raised", kind_of(e)]
+    try:
+        with contextlib.redirect_stdout(io.StringIO()):
+            proc = qib.backend.wmi.WMIQSimProcessor("token")
+            exp = None
+            try:
+                exp = proc.submit_experiment("n", _ctx["circ"])
+                out["submit"] = "ok"
+            except BaseException as e:
+                if isinstance(e, KeyboardInterrupt):
+                    raise
+                out["submit"] = ["raised", kind_of(e)]
+            out["requests"] = len(tr.log)
+            out["status"] = exp.status.name if exp is not None else None
+            if exp is not None:
+                state = []
+                for a in case["schedule"]:
+                    if a == "spawn":
+                        co = exp.wait_for_results()
+                        coros.append(co)
+                        o = advance(co)
+                        state.append(o)
+                    elif isinstance(a, list) and a[0] == "resume":
+                        i = a[1]
+                        if i < len(coros) and state[i] == "sleeping":
+                            o = advance(coros[i])
+                            state[i] = o
+                        else:
+                            o = "invalid"
+                    else:
+                        try:
+                            if a == "query":
+                                o = ["status", exp.query_status().name]
+                            else:
+                                r = exp.results()
+                                o = ["res", None if r is None else r.runtime]
+                        except BaseException as e:
+                            if isinstance(e, KeyboardInterrupt):
+                                raise
+                            o = ["raised", kind_of(e)]
+                    out["steps"].append({"out": o, "status": exp.status.name, "requests": len(tr.log)})
+            out["log"] = tr.log
+    finally:
+        for co in coros:
+            try:
+                co.close()
+            except BaseException:
+                pass
+        nw.requests, wexp.time, wexp.asyncio = old
+    return out
+
+
 def impl(case):
+    if case["op"] == "exp.schedule":
+        return impl_sched(case)
     return impl_http(case) if case["op"] == "http.history" else impl_exp(case)
 
 
@@ -197,6 +292,8 @@ TIMEOUTS = ("timeout", "connectTimeout", "readTimeout")
 
 
 def model_req(case):
+    if case["op"] == "exp.schedule":
+        return {"op": "exp.schedule", "outcomes": ["timeout" if o in TIMEOUTS else o for o in case["outcomes"]], "schedule": case["schedule"]}
     # the model knows one kind of timeout: every subclass of requests.exceptions.Timeout is one
     return {"op": case["op"], "outcomes": ["timeout" if o in TIMEOUTS else o for o in case["outcomes"]], "calls": case.get("calls", []), "presubmit": case.get("presubmit", False)}
 
@@ -216,6 +313,11 @@ def compare(case, o, m):
         return None
     if o["status"] != m["status"] or o["requests"] != m["requests"]:
         return f"after submit: impl ({o['status']},{o['requests']}) != model ({m['status']},{m['requests']})"
+    if case["op"] == "exp.schedule":
+        for i, (a, b) in enumerate(zip(o["steps"], m["steps"])):
+            if a != b:
+                return f"schedule step {i} ({case['schedule'][i]}): impl {a} != model {b}"
+        return None if len(o["steps"]) == len(m["steps"]) else "step list lengths differ"
     if o["calls"] != m["calls"]:
         for i, (a, b) in enumerate(zip(o["calls"], m["calls"])):
             if a != b:
@@ -248,6 +350,40 @@ def oracle(case, o):
                 bad.append(("C17:transport:retry-on-non-timeout", f"HTTP error after {k} timeouts must raise at once; got {o['res']} after {o['attempts']} attempts"))
         if k > mx and (o["res"] != ["raised", "RuntimeError"] or o["attempts"] != mx + 1):
             bad.append(("C17:transport:no-give-up", f"{k} timeouts: expected RuntimeError after {mx+1} attempts, got {o['res']} after {o['attempts']}"))
+        return bad
+    if case["op"] == "exp.schedule":
+        if o["submit"] != "ok":
+            return bad
+        status, req, pos, done_payload = o["status"], o["requests"], 0, None
+        for x in outs[:req]:
+            pos += 1
+        for a, r in zip(case["schedule"], o["steps"]):
+            nreq = r["requests"] - req
+            if status in TERMINAL and (nreq != 0 or r["status"] != status):
+                bad.append(("C17:terminal-not-absorbing", f"schedule: status {status} then {a}: {nreq} more requests, status {r['status']}"))
+            last = None
+            for _ in range(max(nreq, 0)):
+                x = outs[pos]; pos += 1
+                if isinstance(x, tuple):
+                    last = x
+                    if DOC.get(x[1], "ERROR") == "DONE":
+                        done_payload = x[2]
+            if last is not None and r["status"] != DOC.get(last[1], "ERROR"):
+                bad.append(("C17:status-map", f"schedule: reply {last[1]!r} -> {r['status']}, documented {DOC.get(last[1], 'ERROR')}"))
+            if isinstance(r["out"], list) and r["out"][0] == "res":
+                if r["status"] not in TERMINAL:
+                    bad.append(("C17:results-returned-before-terminal", f"schedule: {a} returned with status {r['status']}"))
+                want = done_payload if r["status"] == "DONE" else None
+                if r["out"][1] != want and not (o["status"] == "DONE"):
+                    bad.append(("C17:results-iff-done", f"schedule: {a} returned {r['out'][1]} with status {r['status']} (server results: {want})"))
+            status, req = r["status"], r["requests"]
+        # final status: every coroutine that returned must have returned results iff the FINAL status is DONE
+        if o["steps"] and o["status"] != "DONE":
+            final = o["steps"][-1]["status"]
+            for a, r in zip(case["schedule"], o["steps"]):
+                if isinstance(r["out"], list) and r["out"][0] == "res" and a != "results" and a != "query":
+                    if (r["out"][1] is not None) != (final == "DONE"):
+                        bad.append(("C17:results-iff-final-status-done", f"schedule: {a} returned {r['out'][1]} but the final status is {final}"))
         return bad
     # experiment history
     if case.get("presubmit"):
@@ -379,7 +515,59 @@ def gen_cases(tier, rng):
         yield {"op": "exp.history", "outcomes": outs, "calls": calls}
 
 
+def gen_schedules(tier, rng):
+    """all interleavings of up to three waiting coroutines (each resumed until it finishes) with plain calls, over short reply sequences;
+    then random longer schedules with transport faults"""
+    thorough = tier == "thorough"
+    acts = ["spawn", "query", "results", ["resume", 0], ["resume", 1]]
+    seqs = []
+    for n in range(1, (6 if thorough else 5) + 1):
+        for sch in itertools.product(acts, repeat=n):
+            # resumes only of coroutines that exist; at least one spawn; canonical: the first action is a spawn
+            if sch[0] != "spawn":
+                continue
+            k, ok = 0, True
+            for a in sch:
+                if a == "spawn":
+                    k += 1
+                elif isinstance(a, list) and a[1] >= k:
+                    ok = False
+                    break
+            if ok and k <= 2 + int(thorough):
+                seqs.append(list(sch))
+    replies = [["pending", "finished", "active"], ["pending", "pending", "finished", "active", "cancelled"], ["active", "cancelled", "finished"],
+               ["pending", "active", "offline", "finished"], ["pending", "??", "finished"], ["pending", "pending", "pending", "pending", "finished", "pending"]]
+    for reps in replies:
+        outs = [["ok", "pending", 1]] + [["ok", s_, i + 2] for i, s_ in enumerate(reps)]
+        for sch in (seqs if thorough or len(seqs) <= 1500 else rng.sample(seqs, 1500)):
+            yield {"op": "exp.schedule", "outcomes": outs, "schedule": sch}
+    for _ in range(6000 if thorough else 800):
+        n = rng.randint(2, 12)
+        outs = [["ok", rng.choice(["pending", "active"]), 1]]
+        for i in range(n):
+            r = rng.random()
+            outs.append(["ok", rng.choice(STATUSES[:2] * 3 + STATUSES), i + 2] if r < 0.7 else rng.choice(["timeout", "readTimeout", "httpError", "connError"]))
+        k, sch = 0, []
+        for _ in range(rng.randint(2, 14)):
+            r = rng.random()
+            if k == 0 or r < 0.25:
+                sch.append("spawn"); k += 1
+            elif r < 0.8:
+                sch.append(["resume", rng.randrange(k)])
+            else:
+                sch.append(rng.choice(["query", "results"]))
+        yield {"op": "exp.schedule", "outcomes": outs, "schedule": sch}
+
+
 def run(rep, tier, rng, drv):
     setup()
     run_correspondence(rep, drv, gen_cases(tier, rng), impl, model_req, compare, oracle, "exp.history/http.history",
                        nontrivial=lambda c, o: (o.get("attempts", 0) > 0) or bool(o.get("log")))
+
+    def counted(c):
+        o = impl(c)
+        for st in o.get("steps", []):
+            rep.count("schedule-step:" + (st["out"] if isinstance(st["out"], str) else st["out"][0]))
+        return o
+    run_correspondence(rep, drv, gen_schedules(tier, rng), counted, model_req, compare, oracle, "exp.schedule",
+                       nontrivial=lambda c, o: bool(o.get("log")))
